@@ -893,7 +893,7 @@ class Mini:
         last = p.split("::")[-1]
         for suffix, f in getattr(self, "overrides", {}).items():
             if p.endswith(suffix) and not suffix.startswith("::") or (suffix.startswith("::") and p.endswith(suffix)):
-                return f(args)
+                return f(args, n) if getattr(f, "with_node", False) else f(args)
         if p.startswith("std::result::Result::") or p.startswith("std::option::Option::"):
             if last in ("Ok", "Err", "Some"):
                 return (last, args[0])
@@ -908,6 +908,11 @@ class Mini:
             return [args[0]]
         if p == "std::boxed::Box::<T>::new" and len(args) == 1:
             return args[0]
+        if p in ("std::boxed::Box::<T>::pin", "std::pin::Pin::<Ptr>::new") and len(args) == 1:
+            a0 = args[0]
+            if isinstance(a0, tuple) and a0 and a0[0] == "closure" and not a0[1]:
+                return self.apply(a0, [])  # a boxed async block: its value is what awaiting it yields
+            return a0
         if p in ("std::iter::sources::once::once", "std::iter::once") and len(args) == 1:
             return ("iter", [args[0]])
         if p in ("std::iter::sources::empty::empty", "std::iter::empty"):
@@ -1054,8 +1059,8 @@ class Mini:
         recv = self.ev(m["recv"], env)
         args = [self.ev(a, env) for a in m["args"]]
         for suffix, f in getattr(self, "overrides", {}).items():
-            if p.endswith(suffix) and p.startswith(("std::", "core::", "alloc::")):
-                return f([recv] + args)
+            if p.endswith(suffix) and (p.startswith(("std::", "core::", "alloc::")) or getattr(f, "with_node", False)):
+                return f([recv] + args, n) if getattr(f, "with_node", False) else f([recv] + args)
         if isinstance(recv, str) and nm in ("to_string", "to_owned", "as_str", "into", "as_ref") and not args and p.startswith(("std::", "core::", "alloc::")) and recv != "None":
             return recv  # strings are values here: owned / borrowed forms coincide
         if isinstance(recv, str) and p.startswith("std::str::<impl str>::") and nm in ("contains", "starts_with", "ends_with") and len(args) == 1:
@@ -1601,4 +1606,8 @@ class Mini:
         r, _ = self.find_fn(p, self.crate)
         if r is not None:
             return self.call_fn(p, [recv] + args)
+        for suffix, f in getattr(self, "overrides", {}).items():
+            if p.endswith(suffix):
+                # a trait method without a body (decided by the override of the caller)
+                return f([recv] + args, n) if getattr(f, "with_node", False) else f([recv] + args)
         raise Unsupported(f"method {p}")
